@@ -24,7 +24,7 @@ import (
 // LockEvent is one entry of the log recorded by the schedule executor.
 type LockEvent struct {
 	Seq  int    `json:"seq"`
-	Kind string `json:"kind"` // spawn | proof | signal | exit | observe | fault | pause | resume
+	Kind string `json:"kind"` // spawn | proof | signal | exit | observe | fault | pause | resume | phase | stop | cont | steer | hold | release
 	Proc int    `json:"proc"` // process index within the schedule (not for observe)
 	Pid  int    `json:"pid,omitempty"`
 
@@ -35,10 +35,13 @@ type LockEvent struct {
 	Benign bool   `json:"benign,omitempty"` // expected to exit 0 when nobody holds the cache
 	Delays string `json:"delays,omitempty"` // VERIF_HOOK_DELAYS of the process
 	Uid    int    `json:"uid,omitempty"`    // real uid of the process as read from /proc after the start (0 = the harness's own, root)
+	Long   bool   `json:"long,omitempty"`   // a long-lived command (web UI): once it has the cache it keeps it until it is signalled
 
 	// proof: the process showed that it got past the lock ("building": it printed the
 	// cache-build banner, which comes after lock(); "ready": the web UI printed its
-	// URL and owns its listening socket, i.e. the cache is open and stays open).
+	// URL and owns its listening socket, i.e. the cache is open and stays open; "index":
+	// /proc shows that it has a file of the cache's search indexes open, which are opened
+	// by load()/build after lock() only).
 	Stage string `json:"stage,omitempty"`
 
 	// signal (recorded BEFORE the signal is sent)
@@ -57,6 +60,18 @@ type LockEvent struct {
 	// while the lock file exists and is empty, no other process of the schedule being alive and
 	// the file being absent before its spawn, is a live process between its exclusive creation
 	// of the lock file and the write of its pid.
+
+	// phase: Class names the situation the following part of the schedule is about ("stopped-holder",
+	// "traced-holder", "handover"); it only chooses the suffix of the finding keys.
+	//
+	// stop: the harness suspended the process and saw EVERY thread of it stopped in /proc before
+	// recording the event (Class "sigstop": SIGSTOP, threads in state T; Class "ptrace": a tracer
+	// attached to every thread, threads in state t; Tag: the thread states seen). A suspended
+	// process is alive: what it holds it keeps holding. cont: recorded BEFORE the process is
+	// released (SIGCONT / tracer detaches). steer: the harness let some time pass (Tag says how
+	// much); steering only, nothing is derived from it. hold: a tracer keeps ONE thread of the process
+	// at the entry of a system call (Class: what the call is about, Tag: which call), the other threads
+	// run; release: recorded BEFORE the thread is let go. Both are steering only.
 
 	// observe
 	Tag         string            `json:"tag,omitempty"`
@@ -95,6 +110,19 @@ type LockStats struct {
 	CreatedWindowOutcomes map[string]int // what became of them (refused/failed/opened)
 	CreatedWindowChecks   int            // observations of the lock file made while the creator was parked
 	CrossUidAttempts      int            // resolved attempts made under another uid than the proven holder's
+	// suspended holder: a proven holder stopped (job control or tracer) while others try to open
+	SuspendedHolders        map[string]int // how (sigstop/ptrace) -> proven holders suspended, every thread seen stopped
+	SuspendedHolderAttempts map[string]int // how -> open attempts made entirely while the proven holder was suspended
+	SuspendedHolderOutcomes map[string]int // what became of them
+	SuspendedHolderChecks   int            // lock-file observations checked against a suspended holder
+	SuspendedOpeners        int            // openers (no proof yet) frozen by the harness at a steering point
+	HeldOpeners             map[string]int // what for -> openers one thread of which was held at a system-call entry across a hand-over
+	// hand-over: openers that were started and not yet resolved when a proven holder was signalled
+	HandoverSignals  int            // signals sent to a proven ready holder while at least one opener was unresolved
+	HandoverRacers   int            // openers unresolved at such a signal
+	HandoverOutcomes map[string]int // what became of them
+	HandoverMaxRace  int            // largest number of openers unresolved at one such signal
+	GrantedAfterEnd  int            // openers spawned while a proven holder was alive that were granted the cache after its end
 }
 
 type lockProc struct {
@@ -103,10 +131,13 @@ type lockProc struct {
 	opens, benign bool
 	delays        string
 	uid           int
+	long          bool
 	spawn         int
-	created       int // seq of the pause event that proved p parked between lock creation and pid write
-	resumed       int // seq of the resume event ending that pause (0 = never resumed)
-	building      int // seq of the "building" proof, 0 = none
+	stops         []lockSpan // suspensions (stop..cont) with every thread seen stopped
+	created       int        // seq of the pause event that proved p parked between lock creation and pid write
+	resumed       int        // seq of the resume event ending that pause (0 = never resumed)
+	building      int        // seq of the "building" proof, 0 = none
+	index         int        // seq of the "index" proof (a file of the cache indexes seen open in /proc), 0 = none
 	ready         int
 	lockSeen      int // first observation at which the lock file held this pid
 	signal        int
@@ -118,11 +149,23 @@ type lockProc struct {
 	unexpected    bool
 }
 
+// lockSpan is a suspension of a process: from the stop event to the cont event (lockInf = never released).
+type lockSpan struct {
+	from, to int
+	how      string
+}
+
 const lockInf = int(^uint(0) >> 1)
+
+// keeps says that once p is past the lock it can be taken to keep the cache until the harness
+// signals it or it is gone: a long-lived command (it only lets go on its way out), or a process
+// parked by a hook delay. A short-lived command that runs freely closes the cache by itself at a
+// moment the log does not show (the exit is recorded later than the release).
+func (p *lockProc) keeps() bool { return p.long || p.delays != "" }
 
 func (p *lockProc) firstProof() int {
 	m := 0
-	for _, v := range []int{p.building, p.ready} {
+	for _, v := range []int{p.building, p.ready, p.index} {
 		if v > 0 && (m == 0 || v < m) {
 			m = v
 		}
@@ -186,6 +229,8 @@ func (p *lockProc) howOpened() string {
 		kind := "cache-build banner"
 		if fp == p.ready {
 			kind = "ready line"
+		} else if fp == p.index {
+			kind = "index files open"
 		}
 		return fmt.Sprintf("%s at event %d", kind, fp)
 	}
@@ -223,7 +268,8 @@ func excerpt(s string) string {
 
 // CheckLockLog runs the model over one schedule's event log.
 func CheckLockLog(events []LockEvent) ([]LockFinding, LockStats) {
-	st := LockStats{OpensAfter: map[string]int{}, KillPoints: map[string]int{}, Classes: map[string]int{}, CreatedWindowOutcomes: map[string]int{}}
+	st := LockStats{OpensAfter: map[string]int{}, KillPoints: map[string]int{}, Classes: map[string]int{}, CreatedWindowOutcomes: map[string]int{},
+		SuspendedHolders: map[string]int{}, SuspendedHolderAttempts: map[string]int{}, SuspendedHolderOutcomes: map[string]int{}, HandoverOutcomes: map[string]int{}, HeldOpeners: map[string]int{}}
 	var out []LockFinding
 	find := func(seq int, key, what string) { out = append(out, LockFinding{Key: key, What: what, Seq: seq}) }
 
@@ -239,6 +285,8 @@ func CheckLockLog(events []LockEvent) ([]LockFinding, LockStats) {
 		class string
 	}
 	var faults []fault           // crash residues put in place by the harness (Class says which)
+	var phases []fault           // phase markers (Class = the situation)
+	var signals []LockEvent      // every signal event, in order
 	windowDelaySince := lockInf  // first spawn with a cache.lock.window delay
 	createdDelaySince := lockInf // first spawn with a cache.lock.created delay
 	crossUidSince := lockInf     // first spawn under another uid than an earlier spawn of the schedule
@@ -246,7 +294,7 @@ func CheckLockLog(events []LockEvent) ([]LockFinding, LockStats) {
 	for _, e := range evs {
 		switch e.Kind {
 		case "spawn":
-			p := &lockProc{id: e.Proc, pid: e.Pid, class: e.Class, argv: e.Argv, opens: e.Opens, benign: e.Benign, delays: e.Delays, uid: e.Uid, spawn: e.Seq}
+			p := &lockProc{id: e.Proc, pid: e.Pid, class: e.Class, argv: e.Argv, opens: e.Opens, benign: e.Benign, delays: e.Delays, uid: e.Uid, long: e.Long, spawn: e.Seq}
 			procs[e.Proc] = p
 			byPid[e.Pid] = p
 			order = append(order, p)
@@ -270,8 +318,29 @@ func CheckLockLog(events []LockEvent) ([]LockFinding, LockStats) {
 				if e.Stage == "ready" && p.ready == 0 {
 					p.ready = e.Seq
 				}
+				if e.Stage == "index" && p.index == 0 {
+					p.index = e.Seq
+				}
+			}
+		case "phase":
+			phases = append(phases, fault{e.Seq, e.Class})
+		case "hold":
+			st.HeldOpeners[e.Class]++
+		case "stop":
+			if p := procs[e.Proc]; p != nil && p.exit == 0 {
+				p.stops = append(p.stops, lockSpan{from: e.Seq, to: lockInf, how: e.Class})
+				if p.firstProof() > 0 && p.keeps() && p.signal == 0 {
+					st.SuspendedHolders[e.Class]++
+				} else if p.firstProof() == 0 {
+					st.SuspendedOpeners++
+				}
+			}
+		case "cont":
+			if p := procs[e.Proc]; p != nil && len(p.stops) > 0 && p.stops[len(p.stops)-1].to == lockInf {
+				p.stops[len(p.stops)-1].to = e.Seq
 			}
 		case "signal":
+			signals = append(signals, e)
 			if p := procs[e.Proc]; p != nil && p.signal == 0 {
 				p.signal, p.sig = e.Seq, e.Signal
 				st.KillPoints[strings.ToLower(e.Signal)+"@"+p.stageAt(e.Seq)]++
@@ -314,12 +383,53 @@ func CheckLockLog(events []LockEvent) ([]LockFinding, LockStats) {
 		case crossUidSince < seq:
 			return "cross-uid"
 		}
-		return "plain"
+		tag := "plain"
+		for _, ph := range phases {
+			if ph.seq < seq {
+				tag = ph.class
+			}
+		}
+		return tag
+	}
+	// suspendedAt returns the suspension of p that covers [from, to], nil when there is none.
+	suspendedAt := func(p *lockProc, from, to int) *lockSpan {
+		for k := range p.stops {
+			if sp := &p.stops[k]; sp.from < from && to < sp.to && to < p.end() {
+				return sp
+			}
+		}
+		return nil
 	}
 
-	// F1: two processes proven to be past the lock at the same time.
+	// F1: two processes proven to be past the lock at the same time. A process that keeps the cache
+	// (long-lived, or parked by a hook) holds it from its first proof to its signal/exit. A freely
+	// running short-lived command lets go by itself at a moment the log does not show: it is only
+	// known to hold the cache at the observations that show its pid in the lock file while it is
+	// not yet gone.
+	holdsAtObservation := func(p *lockProc, o *LockEvent) bool {
+		return o.LockExists && strings.TrimSpace(o.LockContent) == strconv.Itoa(p.pid) && p.spawn < o.Seq && (p.exit == 0 || p.exit > o.Seq)
+	}
 	for i, p := range order {
 		for _, q := range order[i+1:] {
+			if !p.keeps() || !q.keeps() {
+				k, f := p, q // k keeps, f runs freely
+				if !k.keeps() {
+					k, f = q, p
+				}
+				if !k.keeps() || k.firstProof() == 0 {
+					continue
+				}
+				for n := range observes {
+					o := &observes[n]
+					if k.firstProof() < o.Seq && o.Seq < k.end() && holdsAtObservation(f, o) {
+						find(o.Seq, "two-holders:"+tagAt(o.Seq),
+							fmt.Sprintf("at observation %d (%s) the lock file holds the pid of the live %s while %s has the cache open since event %d and was neither signalled nor gone: "+
+								"two live processes consider themselves holder of one cache", o.Seq, o.Tag, f, k, k.firstProof()))
+						break
+					}
+				}
+				continue
+			}
 			ps, qs := p.passed(), q.passed()
 			if ps == 0 || qs == 0 {
 				continue
@@ -365,7 +475,7 @@ func CheckLockLog(events []LockEvent) ([]LockFinding, LockStats) {
 				continue
 			}
 			fp := p.firstProof()
-			if fp > 0 && fp < a.spawn && p.end() > openEnd {
+			if fp > 0 && fp < a.spawn && p.end() > openEnd && p.keeps() {
 				definite = append(definite, p)
 				continue
 			}
@@ -435,6 +545,21 @@ func CheckLockLog(events []LockEvent) ([]LockFinding, LockStats) {
 			h := definite[0]
 			if a.uid != h.uid {
 				st.CrossUidAttempts++
+			}
+			if sp := suspendedAt(h, a.spawn, openEnd); sp != nil {
+				st.SuspendedHolderAttempts[sp.how]++
+				switch {
+				case a.opened():
+					st.SuspendedHolderOutcomes["opened"]++
+				case refused == h.pid:
+					st.SuspendedHolderOutcomes["refused naming the suspended holder"]++
+				case refused > 0:
+					st.SuspendedHolderOutcomes["refused naming another pid"]++
+				case a.killedBy != "":
+					st.SuspendedHolderOutcomes["killed"]++
+				default:
+					st.SuspendedHolderOutcomes["failed: "+noDigits(lastLine(a.stderr))]++
+				}
 			}
 			switch {
 			case a.opened():
@@ -576,7 +701,7 @@ func CheckLockLog(events []LockEvent) ([]LockFinding, LockStats) {
 		var holders []*lockProc
 		for _, p := range order {
 			fp := p.firstProof()
-			if fp > 0 && fp < o.Seq && p.end() > o.Seq {
+			if fp > 0 && fp < o.Seq && p.end() > o.Seq && p.keeps() {
 				holders = append(holders, p)
 			}
 		}
@@ -585,6 +710,9 @@ func CheckLockLog(events []LockEvent) ([]LockFinding, LockStats) {
 		}
 		h := holders[0]
 		st.LiveLockChecks++
+		if suspendedAt(h, o.Seq, o.Seq) != nil {
+			st.SuspendedHolderChecks++
+		}
 		content := strings.TrimSpace(o.LockContent)
 		switch {
 		case !o.LockExists:
@@ -600,7 +728,77 @@ func CheckLockLog(events []LockEvent) ([]LockFinding, LockStats) {
 				fmt.Sprintf("at observation %d (%s) %s is alive and has the cache open but the lock file holds %q", o.Seq, o.Tag, h, content))
 		}
 	}
+	// hand-over statistics (no verdict): who was still on its way when a proven holder was signalled
+	for _, sg := range signals {
+		h := procs[sg.Proc]
+		if h == nil || h.signal != sg.Seq || h.ready == 0 || h.ready > sg.Seq {
+			continue
+		}
+		n := 0
+		for _, a := range order {
+			if a == h || !a.opens || a.spawn > sg.Seq || a.spawn < h.ready {
+				continue
+			}
+			if fp := a.firstProof(); fp > 0 && fp < sg.Seq {
+				continue
+			}
+			if a.exit > 0 && a.exit < sg.Seq {
+				continue
+			}
+			n++
+			switch {
+			case a.opened():
+				st.HandoverOutcomes["granted the cache"]++
+			case a.refusedBy() == h.pid:
+				st.HandoverOutcomes["refused naming the closing holder"]++
+			case a.refusedBy() > 0:
+				st.HandoverOutcomes["refused naming another opener"]++
+			case a.exit == 0:
+				st.HandoverOutcomes["unresolved"]++
+			case a.killedBy != "":
+				st.HandoverOutcomes["killed"]++
+			default:
+				st.HandoverOutcomes["failed: "+noDigits(lastLine(a.stderr))]++
+			}
+		}
+		if n > 0 {
+			st.HandoverSignals++
+			st.HandoverRacers += n
+			if n > st.HandoverMaxRace {
+				st.HandoverMaxRace = n
+			}
+		}
+	}
+	for _, a := range order {
+		if !a.opens || !a.opened() {
+			continue
+		}
+		for _, h := range order {
+			if h != a && h.ready > 0 && h.ready < a.spawn && a.spawn < h.end() && h.end() != lockInf {
+				st.GrantedAfterEnd++
+				break
+			}
+		}
+	}
 	return out, st
+}
+
+// noDigits replaces every run of digits by N (pids in messages).
+func noDigits(s string) string {
+	var b strings.Builder
+	in := false
+	for _, r := range s {
+		if r >= '0' && r <= '9' {
+			if !in {
+				b.WriteByte('N')
+			}
+			in = true
+			continue
+		}
+		in = false
+		b.WriteRune(r)
+	}
+	return b.String()
 }
 
 // pauseEnd = the moment from which a parked creator may run again (resume, signal or exit).
@@ -656,6 +854,8 @@ func proofKind(p *lockProc) string {
 		return "ready line"
 	case ps == p.building:
 		return "cache-build banner"
+	case ps == p.index:
+		return "index files open"
 	default:
 		return "its pid in the lock file"
 	}
